@@ -55,8 +55,13 @@ def cover(ctx, binp, validate_in):
     for fam, ops, hists, r in res:
         ctx.cov["states"] += r.distinct
         ctx.cov["transitions"] += r.generated
+        # pure reads never lead to a new abstract state, so the cover never puts one BEFORE another statement; every history is
+        # therefore followed by the family's reads (judged by their results), in an order that revisits one site with different operands
+        isread = lambda o: o["op"] in ("callget", "getvar", "fieldget", "fieldmapget", "read", "len", "mapget", "in")
+        tail = sorted([o for o in ops if isread(o)], key=lambda o: (o["op"], o["x"], json.dumps(o["i"], sort_keys=True)))[:14]
+        tail = tail + tail[:1]
         for h in hists:
-            seq = [ops[i - 1] for i in h]
+            seq = [ops[i - 1] for i in h] + tail
             # the capacity is the runtime's business: the harness logs the real one
             files[n % shards].write(json.dumps(seq) + "\n")
             n += 1
